@@ -30,7 +30,7 @@ CLAIMED = {
                 "with try_from_syntax's rejection of zero rate / zero amount / same commodity checked as the support of "
                 "posting_price_event's unreachable!.  Necessary conditions of the statement; the valuation arithmetic "
                 "(lot, cost, rate*quantity, rounding) is not decided."
-                "Also: each commodity is rounded with the precision looked up for that same commodity, and a `format` sub-directive is stored for the commodity being declared.",
+                "  Also: each commodity is rounded with the precision looked up for that same commodity, and a `format` sub-directive is stored for the commodity being declared.",
         "design_ref": "DESIGN.md §4 C01, §3 E3/E5/E6/E9",
         "note": TRUSTED,
         "technique": "static analysis: dominance-based accept-path rule over MIR (guards in force at every Ok return), error-chain consumption analysis, panic-surface enumeration",
@@ -79,7 +79,7 @@ CLAIMED = {
                 "eval(lhs) as receiver and eval(rhs) as argument, unary minus negates; the grammar's precedence strata, operator "
                 "symbol tables and left fold are read from the function-value reference graph and constants; conversions to a "
                 "single amount test the commodity count before taking an element.  Numeric results are not decided."
-                "Also: the unary minus always builds Unary(Negate, operand) and the parser never alters the operand's sign itself.",
+                "  Also: the unary minus always builds Unary(Negate, operand) and the parser never alters the operand's sign itself.",
         "design_ref": "DESIGN.md §4 C08, §3 E5/E7/E8",
         "note": TRUSTED,
         "technique": "static analysis: exhaustive decision tables over enum-kind domains from MIR paths; function-reference graph and constant-set comparison for the grammar",
@@ -94,7 +94,7 @@ CLAIMED = {
                 "derived lexicographic (ledger hops, hops, staleness) and extend updates it as specified; convert_single is "
                 "identity / value*rate / RateNotFound; conversion errors are propagated; neighbours are relaxed in sorted "
                 "order.  Search optimality and the rate product are not decided."
-                "Also: only reviewed operations (push, sort, the tabled clear, reads) touch a rate vector - recorded prices are never dropped, merged or rewritten.",
+                "  Also: only reviewed operations (push, sort, the tabled clear, reads) touch a rate vector - recorded prices are never dropped, merged or rewritten.",
         "design_ref": "DESIGN.md §4 C09",
         "note": TRUSTED,
         "technique": "static analysis: ADT-table order checks, decision tables over orderings, typestate (sorted-before-lookup) via who-may-construct + dominance, error-chain analysis",
@@ -119,7 +119,7 @@ CLAIMED = {
                 "file systems glob with glob_match_options() = all three literal options true; the include stack tests, pushes "
                 "and pops the canonical path on every successful return and is passed down the recursion.  Report equivalence "
                 "under splitting is not decided."
-                "The include-resolution rules follow a local helper if the glob / sort / empty-check have been extracted into one (arguments tied back to the call in load_impl).",
+                "  The include-resolution rules follow a local helper if the glob / sort / empty-check have been extracted into one (arguments tied back to the call in load_impl).",
         "design_ref": "DESIGN.md §4 C11",
         "note": TRUSTED,
         "technique": "static analysis: dominance / loop-membership placement rules, operand provenance chains, constant-aggregate comparison over MIR",
@@ -133,7 +133,7 @@ CLAIMED = {
                 "the canonical name and - on every path, for every detail, unfiltered - each alias for that canonical, with both "
                 "errors propagated; store facades forward 1:1; posting accounts and amount commodities are resolved through the "
                 "store.  Equality of reports under alias substitution is not decided."
-                "Also: a commodity `format` is stored for the canonical commodity of its own declaration.",
+                "  Also: a commodity `format` is stored for the canonical commodity of its own declaration.",
         "design_ref": "DESIGN.md §4 C12",
         "note": TRUSTED,
         "technique": "static analysis: decision tables over lookup-state atoms in force, who-may-call / who-may-construct, loop must-pass rules over MIR",
@@ -148,7 +148,7 @@ CLAIMED = {
                 "and how it can exit early; ambient nondeterminism APIs (clock, env, dir listing, threads, random "
                 "state) must be tabled.  A new unsorted iteration that reaches output, an error path or a "
                 "positional use is a violation."
-                "A collect-then-sort only counts when the sort key / comparator cannot merge distinct elements (plain projections; no lower-casing, lengths, prefixes).",
+                "  A collect-then-sort only counts when the sort key / comparator cannot merge distinct elements (plain projections; no lower-casing, lengths, prefixes).",
         "design_ref": "DESIGN.md §3 E4, §4 C13",
         "note": TRUSTED,
         "technique": "static analysis: type-directed hash-order flow over MIR with consumer fingerprints and checked order-insensitivity idioms",
@@ -205,7 +205,7 @@ CLAIMED = {
                 "operation and returns 1 + the count of b'\\n' in the prefix half; BookKeepError spans are span() of parts of the "
                 "function's own posting / exchange; resolve clips with max/min minus the entry start; TrackedSpan is minted only "
                 "from with_span ranges.  Counting newlines for arbitrary content is not decided."
-                "Also: both file-system implementations hand the file text on unedited and load_impl parses exactly that text.",
+                "  Also: both file-system implementations hand the file text on unedited and load_impl parses exactly that text.",
         "design_ref": "DESIGN.md §4 C14",
         "note": TRUSTED,
         "technique": "static analysis: operand provenance incl. closure-capture tracing, who-may-construct, dominance (rewind before read), arithmetic expression trees over MIR",
@@ -237,7 +237,7 @@ CLAIMED = {
                 "the parser's prefix consumes the following blanks.  End of file: every parser that references winnow's bare "
                 "line_ending pairs it with eof in the same alternation, or is tabled as lookahead-only with every reference under "
                 "has_peek.  Round-trip equality of values and idempotence as such are not decided (value level)."
-                "Also: LineWrapStr writes the prefix verbatim in front of every line.",
+                "  Also: LineWrapStr writes the prefix verbatim in front of every line.",
         "design_ref": "DESIGN.md §4 C05",
         "note": TRUSTED,
         "technique": "static analysis: field / variant coverage over the ADT table and MIR place projections, who-may-construct and who-may-reference rules, constant comparison between printer and parser prefixes",
